@@ -578,6 +578,35 @@ def analyze(ctx, want):
             okd = bool(drops) and not moved
             ob("C14.d", "guard-is-a-temporary:" + M.short_name(fn.name), okd, "guard local _%d: dropped at %d site(s), moved into a value: %s" % (l, len(drops), moved), fn.loc())
         ob("C14.d", "guard-exists:" + M.short_name(fn.name), len(guards) >= 1, "%d guard locals" % len(guards), fn.loc())
+        # while the guard is alive (from the block after its creation up to its drop, along every path) nothing is called that
+        # can reach a lock acquisition again: std's RwLock is not re-entrant, a second write() on the same thread blocks
+        # forever — holding the lock, so that every other build blocks as well.  (A guard that is the scrutinee temporary of a
+        # `match` lives through all arms.)
+        lock_fns = {f_.key for f_ in lockers}
+        def reaches_lock(keys):
+            return sorted(M.short_name(F.fns[k_].name) for k_ in F.reachable_fns(list(keys)) if k_ in lock_fns)
+        for l in guards:
+            defs = [bb for bb in fn.reachable() if fn.term(bb)["k"] == "call" and fn.term(bb)["dest"]["l"] == l and not fn.term(bb)["dest"]["pj"]]
+            region, st_ = set(), []
+            for bb in defs:
+                st_.extend(fn.succ(bb))
+            while st_:
+                b_ = st_.pop()
+                if b_ in region:
+                    continue
+                region.add(b_)
+                t_ = fn.term(b_)
+                if t_["k"] == "drop" and t_["p"]["l"] in guards and not t_["p"]["pj"]:
+                    continue
+                st_.extend(fn.succ(b_))
+            held = []
+            for b_ in sorted(region):
+                if fn.term(b_)["k"] == "call":
+                    r_ = reaches_lock(F.callees(fn, [b_]))
+                    if r_:
+                        held.append("%s -> %s (%s)" % (M.short_name(M.call_name(fn.term(b_))), r_[0], fn.loc(b_)))
+            ob("C14.d", "no-lock-acquisition-while-the-guard-is-alive:" + M.short_name(fn.name), bool(defs) and not held,
+               "guard local _%d alive in %d block(s); calls there that can reach a lock acquisition: %s" % (l, len(region), held or "none"), fn.loc())
     sg = F.fn(r"ScannerCache::get$")
     ctx.analysed_fn(sg)
     ob("C14.d", "cache-get-needs-exclusive-access", "&'^0.Named" in sg.j["sig"] and "mut internal::scanner_cache::ScannerCache" in sg.j["sig"], "signature: %s" % sg.j["sig"][:150], sg.loc())
@@ -765,8 +794,27 @@ def analyze(ctx, want):
                 ob("C13.b", "failed-build-inserts-nothing", ok, "compile error path: %d insert(s), returns %s" % (len(ins), S.vstr(r)[:80]), sg.loc())
             elif cv == "Ok":
                 seen.add("miss-ok")
-                okk = len(ins) == 1 and S.mentions(ins[0][3][1], lambda x: x == ("sym", "modes")) and re.search(r"to_vec|to_owned|Vec", S.vstr(ins[0][3][1])) is not None
-                okv = len(ins) == 1 and S.mentions(ins[0][3][2], lambda x: x == ("field", ("downcast", cres, "Ok"), "0"))
+                # the key is a plain copy of the requested list (to_vec / to_owned / Vec::from / into), nothing computed from it
+                okk = len(ins) == 1 and re.match(r"^[&*(]*(slice::to_vec|to_vec|to_owned|ToOwned::to_owned|Vec::from|from|into|clone|Clone::clone|into_vec|Box::new)\([&*(]*modes\)*$", S.fstr(ins[0][3][1])) is not None
+                # the value stored is the compilation result itself (wrapped in the Arc), not a copy that was edited in between:
+                # every scanner handed out later is a clone of this entry, the uncached build returns the compilation as it is
+                payload = ("field", ("downcast", cres, "Ok"), "0")
+                okv = False
+                if len(ins) == 1:
+                    v_ = ins[0][3][2]
+                    n_ = 0
+                    while n_ < 4 and v_ != payload:
+                        n_ += 1
+                        if v_[0] == "app" and re.search(r"Arc::<.*>::new$|Arc::new$|From<.*>>::from$|Into<.*>>::into$", str(v_[1])) and len(v_[2]) == 1:
+                            v_ = v_[2][0]
+                        elif v_[0] == "ref":
+                            v2_ = ex.deref_val(p, v_)
+                            if v2_ == v_:
+                                break
+                            v_ = v2_
+                        else:
+                            break
+                    okv = v_ == payload
                 ob("C13.b", "insert-after-successful-compile", okk and okv, "insert(%s)" % (", ".join(S.vstr(a)[:60] for a in ins[0][3][1:]) if ins else "none"), sg.loc())
                 ok_ret = r[0] == "adt" and r[2] == "Ok"
                 ob("C13.c", "miss-returns-ok", ok_ret, "returns %s" % S.vstr(r)[:100], sg.loc())
